@@ -21,6 +21,7 @@
 // `.github`, `git`, `my_coca_reporter` ... ordinary directories under the statement), and directories called
 // `coca_reporter` / `.idea` / `old_coca_reporter` at depth >= 2 with sources in them (only IMMEDIATE sub-directories
 // are report / IDE directories; below one, the files belong to the immediate sub-directory that contains them).
+// `deeponly` sub-directories hold all their files two to four levels down (`backend/src/main/java/...`).
 // No path component ends in `.git`, `.hg` or `.svn` other than the top-level VCS directories themselves
 // (whether `pkg/.git/x.c` belongs to `pkg` is something the statement leaves open).
 package treegen
@@ -105,7 +106,7 @@ func (f *File) TopDir() string {
 // SubDir is one immediate sub-directory of the root.
 type SubDir struct {
 	Name    string `json:"name"`
-	Kind    string `json:"kind"` // plain | dotted | lookalike | ignored | empty | nested
+	Kind    string `json:"kind"` // plain | dotted | lookalike | deeponly | ignored | empty | nested
 	Ignored bool   `json:"ignored"`
 }
 
@@ -141,6 +142,10 @@ var lookalikeNames = []string{"jgit", "egit", "ngit", "_git", "xsvn", "ahg", "ai
 // so their files belong to the immediate sub-directory above them. (.git/.svn/.hg are not used here: version-control
 // metadata below a module is left open.)
 var innerReporterNames = []string{"coca_reporter", "coca_reporter", ".idea", "old_coca_reporter"}
+
+// deepOnlyNames / deepPathNames: modules of the `backend/src/main/java/...` shape.
+var deepOnlyNames = []string{"backend", "frontend", "service", "modules", "android", "maven.proj", "gradle-app"}
+var deepPathNames = []string{"src", "main", "java", "lib", "pkg", "com", "acme", "internal", "v1", "app.d"}
 var nestedNames = []string{"deep", "tree", "mono", "nested.pkg", "layers"}
 var innerNames = []string{"in", "sub", "x", "impl", "v2", "gen", "model", "leaf", "p.q"}
 var fileStems = []string{"main", "util", "Foo", "Bar", "index", "run", "core", "a", "b", "helper", "Node", "types", "x1", "setup", "lexer", "app"}
@@ -184,13 +189,13 @@ func Generate(r *run.Rand, o Opts) *Tree {
 	}
 	kinds := make([]string, 0, n)
 	if o.Big {
-		base := []string{"plain", "dotted", "nested", "ignored", "lookalike", "empty", "dotted", "nested", "plain"}
+		base := []string{"plain", "dotted", "nested", "ignored", "lookalike", "empty", "deeponly", "nested", "plain"}
 		for i := 0; i < n; i++ {
 			kinds = append(kinds, base[i%len(base)])
 		}
 	} else {
 		for i := 0; i < n; i++ {
-			switch x := r.Intn(14); {
+			switch x := r.Intn(16); {
 			case x < 4:
 				kinds = append(kinds, "plain")
 			case x < 7:
@@ -201,6 +206,8 @@ func Generate(r *run.Rand, o Opts) *Tree {
 				kinds = append(kinds, "empty")
 			case x < 12:
 				kinds = append(kinds, "lookalike")
+			case x < 14:
+				kinds = append(kinds, "deeponly")
 			default:
 				kinds = append(kinds, "nested")
 			}
@@ -318,6 +325,24 @@ func Generate(r *run.Rand, o Opts) *Tree {
 					}
 				}
 				plantOne(sd.Name, absent[r.Intn(len(absent))])
+			}
+		case "deeponly":
+			// a module whose sources all lie two or more levels below it (backend/src/main/java/...): nothing
+			// directly in it, nothing one level down
+			sd = SubDir{Name: pickName(deepOnlyNames), Kind: k}
+			addDir(sd.Name)
+			branches := r.Range(1, 2)
+			for b := 0; b < branches; b++ {
+				d := sd.Name
+				for lvl, depth := 0, r.Range(2, 4); lvl < depth; lvl++ {
+					d += "/" + r.Pick(deepPathNames)
+				}
+				addDir(d)
+				if o.Big {
+					plant(d, r.Range(perDir*3/8+1, perDir*5/8+1))
+				} else {
+					plant(d, r.Range(1, perDir))
+				}
 			}
 		case "empty":
 			sd = SubDir{Name: pickName(append(append([]string{}, plainNames...), dottedNames...)), Kind: k}
@@ -740,6 +765,37 @@ func (t *Tree) Describe(withContent bool) map[string]interface{} {
 		}
 	}
 	return map[string]interface{}{"subs": t.Subs, "dirs": t.Dirs, "files": files}
+}
+
+// DeepOnly lists (immediate sub-directory, extension) pairs such that every file with that extension below the
+// sub-directory lies two or more directory levels below it (none directly in it, none one level down).
+// Ignored sub-directories are skipped. The result is sorted.
+func (t *Tree) DeepOnly() [][2]string {
+	minDepth := map[[2]string]int{}
+	for _, f := range t.Files {
+		top := f.TopDir()
+		if top == "" || IsIgnoredName(top) {
+			continue
+		}
+		depth := strings.Count(f.Rel, "/") - 1 // 0: directly in the sub-directory
+		k := [2]string{top, f.Ext}
+		if d, ok := minDepth[k]; !ok || depth < d {
+			minDepth[k] = depth
+		}
+	}
+	var out [][2]string
+	for k, d := range minDepth {
+		if d >= 2 {
+			out = append(out, k)
+		}
+	}
+	sort.Slice(out, func(i, j int) bool {
+		if out[i][0] != out[j][0] {
+			return out[i][0] < out[j][0]
+		}
+		return out[i][1] < out[j][1]
+	})
+	return out
 }
 
 // ShapeKey is a structural summary without the random names and figures.
